@@ -65,9 +65,10 @@ def tb1(repo, cname):
     rk = set(g.end_statements)
     for p in agg.items():
         rk |= set(p)
-    if set(g.reserved_keywords) != rk:
-        problems.append(("reserved_keywords", sorted(rk - set(g.reserved_keywords)),
-                         sorted(set(g.reserved_keywords) - rk)))
+    # reserved_keywords must contain every keyword the parser acts on; extra reserved words are harmless
+    # (they are refused as parameter names and quoted by the encoders)
+    if rk - set(g.reserved_keywords):
+        problems.append(("reserved_keywords", sorted(rk - set(g.reserved_keywords)), []))
     return problems
 
 
